@@ -888,7 +888,8 @@ Qed.
    rejects; never a panic *)
 Lemma declined_is_none_or_fail T v :
   (exists b, try_convert T v = Ok (Some b)) \/ try_convert T v = Ok None \/
-  (try_convert T v = Fail "internal" /\ exists id tbl id', v = DJ id tbl /\ T = FJson id').
+  (try_convert T v = Fail "internal" /\ exists id tbl id', v = DJ id tbl /\
+     (T = FJson id' \/ exists e, T = FOther id' kind_array e)).
 Proof.
   unfold try_convert.
   destruct T as [t|id elem|id|id|id kd [[eid ekd]|]|id]; destruct v as [|vt sv|vid tbl|s|vid vkd conv]; cbn [dval_ty fty_id];
@@ -898,7 +899,7 @@ Proof.
   all: unfold is_f64_val, is_i64_val.
   all: try (destruct sv as [b|s|z|b|b]).
   all: repeat match goal with
-       | |- context [if N.eqb ?a ?b then _ else _] => destruct (N.eqb a b)
+       | |- context [if N.eqb ?a ?b then _ else _] => destruct (N.eqb a b) eqn:?
        end.
   all: cbn [opt_bscalar option_map].
   all: try (left; eexists; reflexivity); try (right; left; reflexivity).
@@ -911,7 +912,9 @@ Proof.
   all: try (left; eexists; reflexivity); try (right; left; reflexivity).
   all: try (destruct (find _ tbl) as [[? [?|]]|]).
   all: try (left; eexists; reflexivity); try (right; left; reflexivity).
-  all: right; right; split; [reflexivity|]; do 3 eexists; split; reflexivity.
+  all: try (right; right; split; [reflexivity|]; do 3 eexists; split; [reflexivity|left; reflexivity]).
+  all: match goal with H : N.eqb ?k kind_array = true |- _ => apply N.eqb_eq in H; subst k | _ => idtac end.
+  all: right; right; split; [reflexivity|]; do 3 eexists; split; [reflexivity|right; eexists; reflexivity].
 Qed.
 
 Lemma scalar_never_fails T v : (v = DNil \/ exists t sv, v = DS t sv) ->
